@@ -70,6 +70,7 @@ def gen_history(rng, focus, var_share=0.0):
         # a transaction group in Go map order, so which file's records are already written at a crash
         # point in the middle (visible as replay duplicates) is not determined by the request
         jump_all = b["rt"] == "v" and rng.random() < 0.15
+        year0 = None
         for _ in range(1 + rng.randrange(4)):
             t = rng.choice(pools[b["key"]])
             if jump_all or (b["rt"] != "v" and rng.random() < 0.15):
@@ -78,6 +79,10 @@ def gen_history(rng, focus, var_share=0.0):
             if b["rt"] == "v":
                 t += rng.randrange(tfsec[b["tf"]])
                 ns = rng.choice([0, 1, 999999999, rng.randrange(10**9)])
+                if year0 is None:
+                    year0 = time.gmtime(t).tm_year
+                elif time.gmtime(t).tm_year != year0:
+                    continue
             rows.append("%d,%d,%s" % (t, ns, bytes(rng.randrange(256) for _ in range(b["size"])).hex()))
         steps.append("W:%s:%s:%s:%s" % (b["key"], b["rt"], b["cols"], "+".join(rows)))
         r = rng.random()
